@@ -363,7 +363,7 @@ var (
 )
 
 func TestPropDuration(t *testing.T) {
-	vt.Check(t, 40000, 1000000, func(t *rapid.T) {
+	vt.Check(t, 150000, 3000000, func(t *rapid.T) {
 		c := genCase(t, "dur")
 		checkDur(t, c)
 		recDur.Eval(nontrivial(c), caseHash(c), func() any { return c }, lbl(c)...)
@@ -371,7 +371,7 @@ func TestPropDuration(t *testing.T) {
 }
 
 func TestPropMeasurement(t *testing.T) {
-	vt.Check(t, 30000, 700000, func(t *rapid.T) {
+	vt.Check(t, 100000, 2000000, func(t *rapid.T) {
 		c := genCase(t, "meas")
 		checkMeas(t, c)
 		recMeas.Eval(nontrivial(c), caseHash(c), func() any { return c }, lbl(c)...)
